@@ -11,12 +11,12 @@ All statements are about the model function `PTier.eraseRegion` of `Ops.lean` (t
 |---|---|
 | a region with `b ≤ a` is refused (ArgumentError), nothing else is | `perase_rejects` (C07), `perase_ok_iff` |
 | no shrinking: exactly the points with `t < a` or `b < t` remain (both edges go), name and span kept — for ANY region `a < b`, inside the span or not | `perase_noshrink_eq` |
-| shrinking, ANY region (fix A28: the region is clipped to the span, `a' = max a lo`, `b' = min b hi`): an unchanged copy if `b' ≤ a'`, else the entries in closed form (`pshrinkOne`; the arithmetic is `a' + (t - b')`), start kept, end `b' - a'` earlier | `perase_shrink_unfold`, `perase_shrink_any`, `perase_shrink_clip`, `perase_span_any` |
+| shrinking, ANY region (fix A28: the points covered by the region as given are removed, then the region is clipped to the span, `a' = max a lo`, `b' = min b hi`): the un-shrunk result if `b' ≤ a'`, else the entries in closed form (`pshrinkOne`; the arithmetic is `a' + (t - b')`), start kept, end `b' - a'` earlier | `perase_shrink_unfold`, `perase_shrink_any`, `perase_shrink_outside`, `perase_shrink_clip`, `perase_span_any` |
 | shrinking, region inside the span: span start kept, span end exactly `b - a` earlier | `perase_shrink_eq` |
 | both together, the registered main statement | `perase_spec` |
 | one-to-one, order and labels kept: the shrunk entries are the un-shrunk ones, each moved or not | `perase_shrink_map` |
 | multiset statements (duplicates) | `perase_count_noshrink`, `perase_count_shrink` |
-| points exactly at `a` and exactly at `b` go; after shrinking nothing sits at `a'` | `perase_edges` |
+| points exactly at `a` and exactly at `b` go, shrinking or not, for ANY region (same labels in the same order in both results); after shrinking nothing sits at `a'` | `perase_edges` |
 | a point from after `b` never lands on a point from before `a` (they stay strictly apart, on either side of `a`) | `perase_no_collision`, rounding-generic: `perase_no_collision_R` |
 | regression of A28 (regions sticking out of / outside / touching the span) | `perase_shrink_outside_example` |
 -/
@@ -102,23 +102,23 @@ theorem perase_noshrink_eq (t : PTier Int) (hwf : t.WF) (a b : Int) (hab : a < b
   simp only [hd]
   rfl
 
-/-- **shrinking, the code path in closed form** (fix A28): the region is clipped to the span, `a' = max a lo`,
-`b' = min b hi`; a clipped region with `b' ≤ a'` returns an unchanged copy; otherwise the matches of the region AS GIVEN are
-deleted and the shrink loop runs with the clipped region -/
+/-- **shrinking, the code path in closed form** (fix A28): the matches of the region AS GIVEN are deleted, exactly as
+without shrinking; then the region is clipped to the span, `a' = max a lo`, `b' = min b hi`, and the shrink loop runs with
+the clipped region if `a' < b'`; otherwise nothing is moved and the span is kept -/
 theorem perase_shrink_unfold (t : PTier Int) (hwf : t.WF) (a b : Int) (hab : a < b) :
     t.eraseRegion a b true =
-      (if min b t.hi ≤ max a t.lo then .ok t
-       else
+      (if max a t.lo < min b t.hi then
         ({ t with ps := t.ps.filter (outside a b) } : PTier Int).new
           (ps := some ((t.ps.filter (outside a b)).filterMap (pshrinkOne (max a t.lo) (min b t.hi))))
-          (hi := some (shiftBack (max a t.lo) (min b t.hi) t.hi))) := by
+          (hi := some (shiftBack (max a t.lo) (min b t.hi) t.hi))
+       else .ok { t with ps := t.ps.filter (outside a b) }) := by
   obtain ⟨ct, hc, hd⟩ := perase_matches t hwf a b hab
   obtain ⟨e1, e2⟩ := clip_true t.lo t.hi a b
   unfold PTier.eraseRegion
   rw [C05.pnew_of_wf t hwf]
   simp only [bind, Except.bind]
   rw [hc]
-  simp only [hd, e1, e2, Bool.true_and, decide_eq_true_eq, if_true]
+  simp only [hd, e1, e2, Bool.true_and, decide_eq_true_eq]
   split
   · rfl
   · rfl
@@ -238,28 +238,35 @@ theorem mk_pshrink (t : PTier Int) (hwf : t.WF) (a b : Int) (hab : a < b) (hlo :
     omega
   rw [e1, e2]
 
-/-- **shrinking, ANY region `a < b`** (fix A28): with `a' = max a lo`, `b' = min b hi` the part of the region inside the
-span — if that part is empty or a single time (`b' ≤ a'`) an unchanged copy is returned; otherwise the entries are, in
-this order, the points before `a'` unchanged and the points after `b'` moved by exactly `b' - a'` (the model computes
-`a' + (t - b')`), the span start is kept and the span end decreases by exactly `b' - a'`.  The result is well-formed in
-every case. -/
+/-- **shrinking, ANY region `a < b`** (fix A28): the points the region covers (`a ≤ t ≤ b`, both edges) are removed,
+exactly as without shrinking; with `a' = max a lo`, `b' = min b hi` the part of the region inside the span — if that part
+is empty or a single time (`b' ≤ a'`) nothing is moved and the span is kept, the result is the un-shrunk one; otherwise
+the entries are, in this order, the points before `a'` unchanged and the points after `b'` moved by exactly `b' - a'`
+(the model computes `a' + (t - b')`), the span start is kept and the span end decreases by exactly `b' - a'`.  The result is
+well-formed in every case. -/
 theorem perase_shrink_any (t : PTier Int) (hwf : t.WF) (a b : Int) (hab : a < b) :
     t.eraseRegion a b true =
-      (if min b t.hi ≤ max a t.lo then .ok t
-       else .ok ⟨t.name, pshrink (max a t.lo) (min b t.hi) t.ps, t.lo, t.hi - (min b t.hi - max a t.lo)⟩) := by
+      (if max a t.lo < min b t.hi
+       then .ok ⟨t.name, pshrink (max a t.lo) (min b t.hi) t.ps, t.lo, t.hi - (min b t.hi - max a t.lo)⟩
+       else .ok { t with ps := t.ps.filter (fun p => decide (p.t < a ∨ b < p.t)) }) := by
   rw [perase_shrink_unfold t hwf a b hab]
   split
-  · rfl
   · rename_i hne
-    have hne' : max a t.lo < min b t.hi := by omega
     simp only [PTier.new, Option.getD_some, Option.getD_none, filterMap_pshrinkOne_clip t hwf,
-      filterMap_pshrinkOne_eq _ _ hne' t.ps hwf.sorted]
-    exact mk_pshrink t hwf _ _ hne' (by omega) (by omega)
+      filterMap_pshrinkOne_eq _ _ hne t.ps hwf.sorted]
+    exact mk_pshrink t hwf _ _ hne (by omega) (by omega)
+  · rfl
+
+/-- **a region that meets the span in at most one time**: shrinking does exactly what not shrinking does (a point sitting
+on the end of the span that the region touches is removed in both cases; nothing is moved, the span is kept) -/
+theorem perase_shrink_outside (t : PTier Int) (hwf : t.WF) (a b : Int) (hab : a < b)
+    (hout : min b t.hi ≤ max a t.lo) : t.eraseRegion a b true = t.eraseRegion a b false := by
+  rw [perase_shrink_any t hwf a b hab, if_neg (by omega), perase_noshrink_eq t hwf a b hab]
 
 /-- **shrinking, region inside the span**: the span start is kept and the span end decreases by exactly `b - a` -/
 theorem perase_shrink_eq (t : PTier Int) (hwf : t.WF) (a b : Int) (hab : a < b) (hlo : t.lo ≤ a) (hhi : b ≤ t.hi) :
     t.eraseRegion a b true = .ok ⟨t.name, pshrink a b t.ps, t.lo, t.hi - (b - a)⟩ := by
-  rw [perase_shrink_any t hwf a b hab, if_neg (by omega)]
+  rw [perase_shrink_any t hwf a b hab, if_pos (by omega)]
   have e1 : max a t.lo = a := by omega
   have e2 : min b t.hi = b := by omega
   rw [e1, e2]
@@ -267,7 +274,7 @@ theorem perase_shrink_eq (t : PTier Int) (hwf : t.WF) (a b : Int) (hab : a < b) 
 /-- **perase_shrink_clip**: shrinking ANY region whose part inside the span is not empty is shrinking that part -/
 theorem perase_shrink_clip (t : PTier Int) (hwf : t.WF) (a b : Int) (hab : a < b) (hne : max a t.lo < min b t.hi) :
     t.eraseRegion a b true = t.eraseRegion (max a t.lo) (min b t.hi) true := by
-  rw [perase_shrink_any t hwf a b hab, if_neg (by omega),
+  rw [perase_shrink_any t hwf a b hab, if_pos hne,
     perase_shrink_eq t hwf _ _ hne (by omega) (by omega)]
 
 /-! ## the main statement -/
@@ -304,9 +311,9 @@ theorem perase_span_any (t : PTier Int) (hwf : t.WF) (a b : Int) (hab : a < b) (
     exact ⟨_, h, C05.perase_wf t a b false _ h, rfl, rfl, rfl⟩
   | true =>
     have h := perase_shrink_any t hwf a b hab
-    by_cases hc : min b t.hi ≤ max a t.lo
+    by_cases hc : max a t.lo < min b t.hi
     · rw [if_pos hc] at h
-      exact ⟨t, h, hwf, rfl, rfl, by simp only [if_true]; omega⟩
+      exact ⟨_, h, C05.perase_wf t a b true _ h, rfl, rfl, by simp only [if_true]; omega⟩
     · rw [if_neg hc] at h
       exact ⟨_, h, C05.perase_wf t a b true _ h, rfl, rfl, by simp only [if_true]; omega⟩
 
@@ -346,7 +353,7 @@ theorem perase_shrink_map (t : PTier Int) (hwf : t.WF) (a b : Int) (hab : a < b)
     u'.ps = u.ps.map (fun p => if p.t < max a t.lo then p else ⟨p.t - (min b t.hi - max a t.lo), p.l⟩) ∧
     u'.ps.map (·.l) = u.ps.map (·.l) := by
   rw [perase_noshrink_eq t hwf a b hab] at hu
-  rw [perase_shrink_any t hwf a b hab, if_neg (by omega)] at hu'
+  rw [perase_shrink_any t hwf a b hab, if_pos hne] at hu'
   cases hu; cases hu'
   have key : pshrink (max a t.lo) (min b t.hi) t.ps =
       (t.ps.filter (fun p => decide (p.t < a ∨ b < p.t))).map
@@ -413,7 +420,7 @@ theorem perase_count_shrink (t : PTier Int) (hwf : t.WF) (a b : Int) (hab : a < 
     u'.ps.count y =
       if y.t < max a t.lo then t.ps.count y
       else if max a t.lo < y.t then t.ps.count ⟨y.t + (min b t.hi - max a t.lo), y.l⟩ else 0 := by
-  rw [perase_shrink_any t hwf a b hab, if_neg (by omega)] at hu'
+  rw [perase_shrink_any t hwf a b hab, if_pos hne] at hu'
   cases hu'
   generalize max a t.lo = a' at *
   generalize min b t.hi = b' at *
@@ -427,23 +434,31 @@ theorem perase_count_shrink (t : PTier Int) (hwf : t.WF) (a b : Int) (hab : a < 
     · have h3 : ¬ b' < y.t + (b' - a') := by omega
       simp [h1, h2, h3]
 
-/-- **the edges**: a point exactly at `a` or exactly at `b` is removed (without shrinking nothing remains in `[a, b]`; with
-shrinking — the part `[a', b']` of the region inside the span not empty — nothing sits at `a'`, the time onto which `b'`
-is mapped) -/
-theorem perase_edges (t : PTier Int) (hwf : t.WF) (a b : Int) (hab : a < b) (sh : Bool) (t' : PTier Int)
-    (h : t.eraseRegion a b sh = .ok t') :
-    (sh = false → ∀ p ∈ t'.ps, p.t < a ∨ b < p.t) ∧
-    (sh = true → max a t.lo < min b t.hi → ∀ p ∈ t'.ps, p.t < max a t.lo ∨ max a t.lo < p.t) := by
-  constructor
-  · intro hs p hp
-    subst hs
-    rw [perase_noshrink_eq t hwf a b hab] at h
-    cases h
+/-- **the edges / nothing remains in the region**, for ANY region `a < b`, shrinking or not: the points removed are
+exactly those with `a ≤ t ≤ b` — the shrunk result carries the same labels in the same order as the un-shrunk one; without
+shrinking no remaining point lies in `[a, b]`; with shrinking and an empty clipped region the result IS the un-shrunk one;
+with shrinking and a non-empty clipped region `[a', b']` no point sits at `a'`, the time onto which `b'` is mapped -/
+theorem perase_edges (t : PTier Int) (hwf : t.WF) (a b : Int) (hab : a < b) (u u' : PTier Int)
+    (hu : t.eraseRegion a b false = .ok u) (hu' : t.eraseRegion a b true = .ok u') :
+    (∀ p ∈ u.ps, p.t < a ∨ b < p.t) ∧
+    u'.ps.map (·.l) = u.ps.map (·.l) ∧
+    (min b t.hi ≤ max a t.lo → u' = u) ∧
+    (max a t.lo < min b t.hi → ∀ p ∈ u'.ps, p.t < max a t.lo ∨ max a t.lo < p.t) := by
+  refine ⟨?_, ?_, ?_, ?_⟩
+  · intro p hp
+    rw [perase_noshrink_eq t hwf a b hab] at hu
+    cases hu
     simpa using (List.mem_filter.1 hp).2
-  · intro hs hne p hp
-    subst hs
-    rw [perase_shrink_any t hwf a b hab, if_neg (by omega)] at h
-    cases h
+  · by_cases hne : max a t.lo < min b t.hi
+    · exact (perase_shrink_map t hwf a b hab hne u u' hu hu').2
+    · rw [perase_shrink_outside t hwf a b hab (by omega), hu] at hu'
+      cases hu'; rfl
+  · intro hout
+    rw [perase_shrink_outside t hwf a b hab hout, hu] at hu'
+    cases hu'; rfl
+  · intro hne p hp
+    rw [perase_shrink_any t hwf a b hab, if_pos hne] at hu'
+    cases hu'
     rcases pshrink_mem hp with ⟨_, h2⟩ | ⟨q, _, h2, rfl⟩
     · exact Or.inl h2
     · right; simp only; omega
@@ -476,28 +491,37 @@ def exPts : PTier Int :=
 theorem exPts_wf : exPts.WF := by
   refine ⟨?_, ?_, ?_, ?_, ?_⟩ <;> simp [exPts, Pt.le] <;> decide
 
-/-- **regression of A28 — a region sticking out of the span**: shrinking `[6, 15]` out of a tier spanning `[0, 10]` cuts
-out `[6, 10]` only — the span end becomes `10 - 4 = 6` (before the fix: 5, the last remaining point, while a textgrid
-computed 1); a region wholly before the span erases nothing (before the fix every point was moved to before the old start);
-a region that only touches the span's end erases nothing either — when shrinking, not even a point sitting exactly on that
-end, which the same call without shrinking removes (the same calls on the class return the same tiers) -/
+/-- **regression of A28 — regions sticking out of, outside, or touching the span**: shrinking `[6, 15]` out of a tier
+spanning `[0, 10]` cuts out `[6, 10]` only — the span end becomes `10 - 4 = 6` (before the fix: 5, the last remaining point,
+while a textgrid computed 1); a region wholly before the span changes nothing (before the fix every point was moved to
+before the old start); a region that only touches the span's end removes a point sitting exactly on that end — shrinking or
+not — and moves nothing (the first version of the fix kept that point when shrinking); the same at the start of the span
+(the same calls on the class return the same tiers) -/
 theorem perase_shrink_outside_example :
     exPts.WF ∧
     exPts.eraseRegion 6 15 true = .ok ⟨"P", [⟨1, "a"⟩, ⟨3, "b"⟩, ⟨3, "c"⟩, ⟨5, "d"⟩, ⟨5, "d"⟩], 0, 6⟩ ∧
     exPts.eraseRegion (-7) (-2) true = .ok exPts ∧
     exPts.eraseRegion 9 15 true = .ok ⟨"P", [⟨1, "a"⟩, ⟨3, "b"⟩, ⟨3, "c"⟩, ⟨5, "d"⟩, ⟨5, "d"⟩, ⟨7, "e"⟩], 0, 9⟩ ∧
-    (⟨"Q", [⟨10, "x"⟩], 0, 10⟩ : PTier Int).eraseRegion 10 15 true = .ok ⟨"Q", [⟨10, "x"⟩], 0, 10⟩ ∧
-    (⟨"Q", [⟨10, "x"⟩], 0, 10⟩ : PTier Int).eraseRegion 10 15 false = .ok ⟨"Q", [], 0, 10⟩ := by
-  have hq : (⟨"Q", [⟨10, "x"⟩], 0, 10⟩ : PTier Int).WF := by
+    (⟨"Q", [⟨0, "s"⟩, ⟨3, "p"⟩, ⟨10, "x"⟩], 0, 10⟩ : PTier Int).eraseRegion 10 15 true =
+      .ok ⟨"Q", [⟨0, "s"⟩, ⟨3, "p"⟩], 0, 10⟩ ∧
+    (⟨"Q", [⟨0, "s"⟩, ⟨3, "p"⟩, ⟨10, "x"⟩], 0, 10⟩ : PTier Int).eraseRegion 10 15 false =
+      .ok ⟨"Q", [⟨0, "s"⟩, ⟨3, "p"⟩], 0, 10⟩ ∧
+    (⟨"Q", [⟨0, "s"⟩, ⟨3, "p"⟩, ⟨10, "x"⟩], 0, 10⟩ : PTier Int).eraseRegion (-5) 0 true =
+      .ok ⟨"Q", [⟨3, "p"⟩, ⟨10, "x"⟩], 0, 10⟩ := by
+  have hq : (⟨"Q", [⟨0, "s"⟩, ⟨3, "p"⟩, ⟨10, "x"⟩], 0, 10⟩ : PTier Int).WF := by
     refine ⟨?_, ?_, ?_, ?_, ?_⟩ <;> simp [Pt.le] <;> decide
-  refine ⟨exPts_wf, ?_, ?_, ?_, ?_, ?_⟩
-  · rw [perase_shrink_any exPts exPts_wf 6 15 (by decide), if_neg (by decide)]
+  refine ⟨exPts_wf, ?_, ?_, ?_, ?_, ?_, ?_⟩
+  · rw [perase_shrink_any exPts exPts_wf 6 15 (by decide), if_pos (by decide)]
     rfl
-  · rw [perase_shrink_any exPts exPts_wf (-7) (-2) (by decide), if_pos (by decide)]
-  · rw [perase_shrink_any exPts exPts_wf 9 15 (by decide), if_neg (by decide)]
+  · rw [perase_shrink_any exPts exPts_wf (-7) (-2) (by decide), if_neg (by decide)]
     rfl
-  · rw [perase_shrink_any _ hq 10 15 (by decide), if_pos (by decide)]
+  · rw [perase_shrink_any exPts exPts_wf 9 15 (by decide), if_pos (by decide)]
+    rfl
+  · rw [perase_shrink_any _ hq 10 15 (by decide), if_neg (by decide)]
+    rfl
   · rw [perase_noshrink_eq _ hq 10 15 (by decide)]
+    rfl
+  · rw [perase_shrink_any _ hq (-5) 0 (by decide), if_neg (by decide)]
     rfl
 
 /-- the hypotheses of `perase_spec` are met (proved, not evaluated): edges on points, duplicates inside and outside -/
